@@ -108,7 +108,18 @@ TLte ==
          /\ Ev.ret = "root" => Near(Ev.v, Ev.tv, 1000))
     /\ UNCHANGED <<vars, setup, seen>>
 
+\* efficiency factor of plain deflagrations (slow walls included, down to the solver's own vMin) against the kinetic-energy
+\* integral of the flow profile that starts from the returned matching: relative, 1e-3 (C03; for C15 general vs template)
+TKappa ==
+    /\ IsEvent("Kappa")
+    /\ "vJ" \in DOMAIN setup
+    /\ Ev.out = "ok"
+    /\ PROP = "C03" => Ev.dKappaRel >= 3
+    \* (below vw = 0.03 the general solver's matching itself is the subject of known finding C02-F1 / C15-F3)
+    /\ PROP = "C15" => ((setup.isTemplate /\ Ev.vw >= 300000) => Ev.dKappaTRel >= 3 - Weak(setup.alN))
+    /\ UNCHANGED <<vars, setup, seen>>
+
 TInit == TraceInitLib /\ mode = "trace" /\ st = [none |-> TRUE] /\ setup = [none |-> TRUE] /\ seen = <<>>
-TNext == TSetup \/ TMatch \/ TLte
+TNext == TSetup \/ TMatch \/ TLte \/ TKappa
 TSpec == TInit /\ [][TNext]_<<vars, tvars, tid, l>>
 =============================================================================
